@@ -133,6 +133,8 @@ def run(tier):
     # no invention: every tree returned with errors
     srcs = [t["src"].encode("latin-1") for t in tasks[1::2]][:: (3 if tier == "quick" else 1)]
     srcs += [c["src"] for c in lexgen.cases(check, tier, rng)][:: (3 if tier == "quick" else 1)] + c01.random_inputs(rng, 1500 if tier == "quick" else 20000, 14)
+    for fam_ in ("7", "5"):
+        srcs += progs.token_mutations(check, fam_, core.seed(), 200 if tier == "quick" else 3000)
     srcs = list(dict.fromkeys(srcs))
     t2 = [{"op": "analyze", "src": s.decode("latin-1"), "ver": ["7.4", "5.6"][i % 2]} for i, s in enumerate(srcs)]
     # trees returned together with an error that a grammar action reported itself (PHP 5) and with give-ups
